@@ -117,7 +117,7 @@ func checkNoForeignConn(f failer, ctx string, sw *swarm.Swarm, rec *recNotifiee,
 // itself); real swarm.
 func TestDialScripted(t *testing.T) {
 	name := t.Name()
-	hx.Check(t, 500, 20000, 0, func(rt *rapid.T) {
+	hx.Check(t, 500, 40000, 0, func(rt *rapid.T) {
 		n := rapid.IntRange(1, 3).Draw(rt, "naddrs")
 		addrs := make([]dialAddr, n)
 		for i := range addrs {
@@ -321,7 +321,7 @@ func TestDialRealUpgrader(t *testing.T) {
 	warm()
 	name := t.Name()
 	secLists := [][]string{{pNoise}, {pTLS}, {pNoise, pTLS}, {pTLS, pNoise}}
-	hx.Check(t, 200, 8000, 0, func(rt *rapid.T) {
+	hx.Check(t, 200, 6000, 0, func(rt *rapid.T) {
 		tp := rapid.SampledFrom(keys.Types).Draw(rt, "ptype")
 		tq := rapid.SampledFrom(keys.Types).Draw(rt, "qtype")
 		local, P, Q := keys.Ed(5), keys.Get(tp, 0), keys.Get(tq, 2)
